@@ -182,6 +182,29 @@ def recursion_guarded(src):
     return True, sorted(guarded)
 
 
+def cache_key_is_text(router):
+    """query_router cache_key_for_query: the key is the command text itself (ends trimmed), i.e.
+    injective on statements; lower-casing / whitespace collapsing / any other normalisation merges
+    statements that differ inside string literals"""
+    _sig, body = find_fn(router, "cache_key_for_query")
+    b = re.sub(r"\s+", " ", body.strip())
+    if re.fullmatch(r'format!\("query:\{\}", command\.trim\(\)\)', b):
+        return True
+    if re.search(r"to_lowercase|to_uppercase|split_whitespace|replace\(|to_ascii", b):
+        return False
+    raise KeyError("cache_key_for_query shape not recognised: %s" % b[:80])
+
+
+def cache_invalidation(router):
+    """execute_parsed: every write statement invalidates the cache, on success and on error, with no
+    further condition on the result"""
+    _sig, body = find_fn(router, "execute_parsed")
+    b = re.sub(r"\s+", " ", body)
+    ok_path = re.search(r"if Self::is_write_statement\(&stmt\) \{ self\.invalidate_cache_on_write\(\); \} Ok\(result\)", b) is not None
+    err_path = re.search(r"Err\(e\) => \{ if Self::is_write_statement\(&stmt\) \{ self\.invalidate_cache_on_write\(\); \} return Err\(e\); \}", b) is not None
+    return ok_path and err_path
+
+
 def pairs(t):
     return "[" + "; ".join("(%d, %d)" % x for x in t) + "]"
 
@@ -234,6 +257,9 @@ def generate(repo):
     item("doc_book", (DEF_LEVELS, DEF_TABLE, True, (10, 19)),
          lambda: book_levels(read(repo, "docs/book/src/architecture/neumann-parser.md")))
     item("recursion_parser", (False, []), lambda: recursion_guarded(parser))
+    router = strip_comments(read(repo, "query_router/src/lib.rs"))
+    item("cache_key_is_text", True, lambda: cache_key_is_text(router))
+    item("cache_invalidation", True, lambda: cache_invalidation(router))
 
     b = lambda x: "true" if x else "false"  # noqa: E731
     hl, hun, hpost = out["doc_expr_header"]
@@ -270,5 +296,9 @@ def generate(repo):
         + "(* parser.rs call graph: every recursion cycle passes through a function that increments and\n"
           "   checks self.depth on entry (guarded entry points: %s) *)\n" % (", ".join(rec_guarded) or "none")
         + "Definition gen_recursion_guarded_parser : bool := %s.\n" % b(rec_ok)
+        + "(* query_router: the query-cache key is the statement text as written (injective), and every\n"
+          "   write statement drops the cache on success and on error, unconditionally *)\n"
+        + "Definition gen_cache_key_is_text : bool := %s.\n" % b(out["cache_key_is_text"])
+        + "Definition gen_cache_invalidation_unconditional : bool := %s.\n" % b(out["cache_invalidation"])
     )
     return text, items
